@@ -1,4 +1,8 @@
 import Vata.Proofs.LtsSim
+import Vata.Proofs.SimPipeline
+import Vata.Properties.C16_Engine
+import Vata.Properties.Util_LtsUtil
+import Vata.Properties.Util_BinRel
 /-!
 # C16 – LTS simulation engine returns the greatest simulation inside a given preorder
 
@@ -17,15 +21,24 @@ Everything is in `Vata/Proofs/LtsSim.lean` (namespace `Vata.L`).
   initially" is the union of all simulations contained in the initial relation `I`; this is the right-hand side of
   `C16_characterisation`.
 * **Initial relation.**  `I : Rel = List (Nat × Nat)` is a relation **on states**, given as a list of pairs; it stands
-  for "the blocks of `q` and `r` are related initially".  The partition and the relation on blocks of the statement are
-  *not* objects of the model: the driver (`Driver/Main.lean`, `checkLts`) computes `I` from them as
-  `{(q, r) | q, r < n, (block of q, block of r) ∈ block relation}`.  With no partition given `I = fullRel n`, the full
-  relation on `0..n-1`.
-* **Reference / model.**  `ltsSimRef L I`: naive refinement – repeatedly delete from the current relation the pairs
+  for "the blocks of `q` and `r` are related initially".  In the first part of this file the partition and the relation on
+  blocks of the statement are not objects of the model: the driver (`Driver/Main.lean`, `checkLts`) computes `I` from them
+  as `{(q, r) | q, r < n, (block of q, block of r) ∈ block relation}`; in the model of the engine they are
+  (`LE.initRel part rel`, `C16_engine_initial_relation`).  With no partition given `I = fullRel n`, the full relation on
+  `0..n-1`.
+* **Reference.**  `ltsSimRef L I`: naive refinement – repeatedly delete from the current relation the pairs
   that violate the transfer condition `ltsOk`, until nothing changes (`|I|+1` rounds).  It is the oracle the relation
-  returned by the real `computeSimulation` is compared with.  It is NOT a model of the partition-refinement engine of
-  `explicit_lts_sim.cc` (see the end of the file).  `ltsSimOut L I k = restrictRel k (ltsSimRef L I)` is what is
-  expected for output size `k`.  `isLtsSimB` is the Boolean simulation test the driver runs on the reference.
+  returned by the real `computeSimulation` is compared with, and the SPECIFICATION the model of the engine is proved against.
+  `ltsSimOut L I k = restrictRel k (ltsSimRef L I)` is what is expected for output size `k`.  `isLtsSimB` is the Boolean
+  simulation test the driver runs on the reference.
+* **Model of the code.**  `Vata/LtsEngine.lean` (namespace `Vata.LE`) models class `SimulationEngine` of
+  `src/explicit_lts_sim.cc` at the granularity of the code (partition, block relation, counters, remove lists, queue; `init`,
+  `processRemove`, `split`, `run`, `buildResult`, the three overloads of `computeSimulation`); its theorems are in
+  `Vata/Properties/C16_Engine.lean`.  The helper classes it treats as values (`SmartSet`, `SharedCounter`, `SharedList`,
+  `SplittingRelation`, the caching allocators) are modelled as coded in `Vata/LtsUtil.lean`
+  (`Vata/Properties/Util_LtsUtil.lean`), the `BinaryRelation` the result is written into in `Vata/BinRel.lean`
+  (`Vata/Properties/Util_BinRel.lean`).  The last section of this file puts the three layers together
+  (`C16_engine_statement`, `C16_engine_output_matrix`, `C16_engine_on_coded_classes`).
 -/
 namespace Vata.Props
 open Vata.L
@@ -124,26 +137,134 @@ theorem C16_checker_exact (L : LTS) (R I : Rel) :
 
 example : isLtsSimB exL [(0, 1), (2, 2)] = true ∧ isLtsSimB exL [(1, 0), (2, 2)] = false := by decide
 
+/-! ### the engine as coded: the property in one statement, the returned matrix, the helper classes -/
+
+section
+open Vata.LE
+
+/-- **C16 for the model of `SimulationEngine`.**  Given a labelled transition system whose edges connect states `< n`, a
+partition of `0..n-1` into non-empty blocks and a reflexive, transitive relation on the blocks: `computeSimulation` returns;
+the relation it returns contains `(q, r)` exactly when `q, r` are below the requested output size and some simulation that
+only relates states whose blocks are related initially relates `q` to `r` (the greatest such simulation); and it is a
+preorder on the states below the output size.  With no partition given (`computeSimulation(outputSize)`) the same with the
+greatest simulation of the system. -/
+theorem C16_engine_statement (L : LTS) (part : List (List Nat)) (rel : Rel) (k : Nat) (hL : ltsOKB L = true) :
+    (isPartition part L.n = true → isConsistent part rel = true → isTransB rel = true →
+      ∃ R, computeSimulation L part rel k = some R ∧
+        (∀ q r, (q, r) ∈ R ↔ q < k ∧ r < k ∧
+          ∃ S : Nat → Nat → Prop, IsSim L S ∧ (∀ a b, S a b → (a, b) ∈ initRel part rel) ∧ S q r) ∧
+        (∀ p, p ∈ initRel part rel ↔
+          p ∈ (fullRel L.n).filter (fun p => rel.contains (blockOf part p.1, blockOf part p.2))) ∧
+        (∀ q, q < L.n → q < k → (q, q) ∈ R) ∧ (∀ a b c, (a, b) ∈ R → (b, c) ∈ R → (a, c) ∈ R)) ∧
+    (0 < L.n → ∃ R, computeSimulation1 L k = some R ∧
+      ∀ q r, (q, r) ∈ R ↔ q < k ∧ r < k ∧ q < L.n ∧ r < L.n ∧ ∃ S : Nat → Nat → Prop, IsSim L S ∧ S q r) := by
+  constructor
+  · intro hp hc ht
+    obtain ⟨R, hR, hspec⟩ := C16_engine_computes_greatest_simulation L part rel k hL hp hc ht
+    have href := C16_engine_output_is_reference L part rel k R hL hp hc ht hR
+    obtain ⟨hI, _, _, hr, htr⟩ := C16_engine_initial_relation L part rel hL hp hc ht
+    refine ⟨R, hR, hspec, hI, fun q hq hk => ?_, fun a b c hab hbc => ?_⟩
+    · exact (href q q).mpr (((C16_output_restriction L _ k q q).1).mpr ⟨hk, hk, hr q hq⟩)
+    · have h1 := ((C16_output_restriction L _ k a b).1).mp ((href a b).mp hab)
+      have h2 := ((C16_output_restriction L _ k b c).1).mp ((href b c).mp hbc)
+      exact (href a c).mpr (((C16_output_restriction L _ k a c).1).mpr ⟨h1.1, h2.2.1, htr a b c h1.2.2 h2.2.2⟩)
+  · intro hn
+    obtain ⟨⟨R, hR, e⟩, _⟩ := C16_engine_default L k hL hn
+    refine ⟨R, hR, fun q r => ?_⟩
+    have hwf : ∀ e, e ∈ L.edges → e.2.2 < L.n := fun e he => (ltsOK_of_B hL e he).2
+    rw [e q r, (C16_output_restriction L _ k q r).1, C16_default_is_greatest_simulation L hwf q r]
+
+example : ltsOKB EngEx.L1 = true ∧ isPartition EngEx.part1 EngEx.L1.n = true ∧
+    isConsistent EngEx.part1 EngEx.rel1 = true ∧ isTransB EngEx.rel1 = true ∧ 0 < EngEx.L1.n := by decide
+
+/-- **"The result restricted to the requested output size is reported for exactly the states below that size" – the returned
+object.**  The `BinaryRelation` that `buildResult(result, size)` fills from the engine's result (a fresh relation, `resize(k)`,
+`set(q, r, true)` per pair; class model `Vata/BinRel.lean`, `SimPipe.resultMat`) is well-formed, has dimension `size_ = k`, and
+its entry `(q, r)`, `q, r < k`, is `true` exactly when `(q, r)` lies in the greatest simulation inside the initial relation -/
+theorem C16_engine_output_matrix (L : LTS) (part : List (List Nat)) (rel : Rel) (k : Nat) (hL : ltsOKB L = true)
+    (hp : isPartition part L.n = true) (hc : isConsistent part rel = true) (ht : isTransB rel = true) :
+    ∃ R, computeSimulation L part rel k = some R ∧
+      BinRel.WF (SimPipe.resultMat k R) ∧ (SimPipe.resultMat k R).size = k ∧
+      ∀ q r, q < k → r < k → ((SimPipe.resultMat k R).get q r = true ↔ (q, r) ∈ ltsSimRef L (initRel part rel)) := by
+  obtain ⟨R, hR⟩ := C16_engine_terminates L part rel k hL hp hc ht
+  have href := C16_engine_output_is_reference L part rel k R hL hp hc ht hR
+  have hlt : ∀ p, p ∈ R → p.1 < k ∧ p.2 < k := fun p hp' =>
+    have := ((C16_output_restriction L _ k p.1 p.2).1).mp ((href p.1 p.2).mp hp')
+    ⟨this.1, this.2.1⟩
+  obtain ⟨w, hsz, hget⟩ := SimPipe.resultMat_spec k R hlt
+  refine ⟨R, hR, w, hsz, fun q r hq hr => ?_⟩
+  rw [hget q r hq hr, decide_eq_true_iff, href q r, (C16_output_restriction L _ k q r).1]
+  exact ⟨fun h => h.2.2, fun h => ⟨hq, hr, h⟩⟩
+
+example : (computeSimulation EngEx.L1 EngEx.part1 EngEx.rel1 3).map (fun R => (SimPipe.resultMat 3 R).toBMat) =
+    some [[true, true, false], [false, true, false], [false, false, true]] := by decide +kernel
+
+/-- **the values the engine model computes with are what the helper classes as coded compute** (the refinement of
+`Vata/Properties/Util_LtsUtil.lean` at the places where the engine uses it): `SplittingRelation::split(i)` on any state that
+represents the block relation `rel` – `i` reflexive and below the capacity, as in `SimulationEngine::split` – is defined and
+represents `LE.relSplit rel i`, the function the engine model applies; erasing through the row iterator is the `filter` of
+the model; `SmartSet` insertion / removal / key enumeration and the flattening of a `SharedList` are the model's `insAdd` /
+`insRemove` / `insKeys` / `flat`; and the `SmartSet` as coded follows its value for every call inside the discipline -/
+theorem C16_engine_on_coded_classes :
+    (∀ {s : LU.SR.T} {rel : List (List Nat)} {i : Nat}, LU.SR.Inv s rel → i < rel.length →
+      (rel.length < s.rows.length → (rel.getD i []).contains i = true →
+        ∃ s', LU.SR.split s i = some s' ∧ LU.SR.Inv s' (relSplit rel i)) ∧
+      (∀ mask, ∃ s', LU.SR.eraseRow s i mask = some s' ∧
+        LU.SR.Inv s' (rel.set i ((rel.getD i []).filter (fun c => !mask.contains c))))) ∧
+    ((∀ s a, LU.SS.aAdd s a = insAdd s a) ∧ (∀ s a, LU.SS.aRemove s a = insRemove s a) ∧
+      (∀ s, LU.SS.aKeys s = insKeys s) ∧ (∀ r : LU.SL.RemList, LU.SL.flat r = flat r)) ∧
+    (∀ {w : LU.SS.World} {aw : LU.SS.AWorld} {op : LU.SS.Op}, LU.SS.RW w aw → LU.SS.ok aw op = true →
+      ∃ w', LU.SS.step w op = some w' ∧ LU.SS.RW w' (LU.SS.aStep aw op)) := by
+  obtain ⟨v1, v2, v3, v4, v5, _⟩ := Util_LtsUtil_values_are_engine_values
+  refine ⟨fun h hi => ⟨fun hcap hrefl => ?_, (Util_LtsUtil_SplittingRelation_ops h hi).1⟩, ⟨v1, v2, v3, v5⟩,
+    fun h hok => Util_LtsUtil_SmartSet_step h hok⟩
+  rw [← v4]
+  exact (Util_LtsUtil_SplittingRelation_ops h hi).2 hcap hrefl
+
+example : LU.SR.okAll ⟨[], 5, false⟩ LU.SR.Ex.ops = true ∧ relSplit [[0, 1], [1]] 1 = [[0, 1, 2], [1, 2], [1, 2]] := by decide
+
+end
+
 /-!
+## closed since the last refresh of this file
+
+* **"The engine itself is not modelled."** – closed: `Vata/LtsEngine.lean` models `init`, `fastSplit`, `split`, `internalSplit`,
+  `trySplit`, `buildPre`, `processRemove`, `enqueueToRemove`, `run`, `buildResult` and the three overloads;
+  `C16_engine_output_is_reference` (partial correctness against `ltsSimOut`), `C16_engine_terminates` (explicit internal fuel),
+  `C16_engine_computes_greatest_simulation`, `C16_engine_invariant`, `C16_engine_default`
+  (`Vata/Properties/C16_Engine.lean`; no certificate check is involved); the property in one statement: `C16_engine_statement`.
+* **"Partition and relation on blocks. … not a Lean definition with theorems; … `buildResult` … is not modelled"** – closed:
+  `LE.initRel`, `C16_engine_initial_relation` (it is the driver's relation, reflexive on `0..n-1` and transitive – the
+  hypotheses `hrefl`, `htrans` of `C16_preorder`), `buildResult` is part of the model (`Vata.LE.mem_buildResult`).
+* **"Output size. … the dimension of the returned `BinaryRelation` is not a notion of the model"** – closed at the level of the
+  class model: `C16_engine_output_matrix` (with `SimPipe.resultMat_spec`, `Util_BinRel_buildResult`, `Util_BinRel_resize`,
+  `Util_BinRel_get_set`): the matrix has `size_ = k` and holds exactly the pairs below `k`.
+* **The helper classes inside the engine** (they appeared in the C20 block as "components without any model"): each is modelled
+  as coded and proved to refine the value the engine model computes with, for every history inside the engine's call
+  discipline – `Util_LtsUtil_SmartSet_history`, `Util_LtsUtil_SharedCounter_history`, `Util_LtsUtil_SharedCounter_layout`,
+  `Util_LtsUtil_SharedList_history`, `Util_LtsUtil_SplittingRelation_history`, `Util_LtsUtil_CachingAllocator_history`,
+  `Util_LtsUtil_values_are_engine_values`; at the engine's call sites: `C16_engine_on_coded_classes`.
+* **The two callers of the engine inside the library satisfy its preconditions** (`LtsOK`, `isPartition`, `isConsistent`, and
+  the transitivity the C++ does not assert): `C04_pipeline_engine_preconditions` (`Vata/Properties/C04_Pipeline.lean`).
+
 ## not yet proved
 
-* **The engine itself is not modelled.**  `explicit_lts_sim.cc` is a partition-refinement algorithm: `partition_` /
-  `relation_` on blocks, the initial split by outgoing labels and pruning in `init`, per-block counters
-  (`Block::counter_`), remove lists (`Block::remove_`), the work queue `queue_`, `processRemove`, `split`, `fastSplit`.
-  None of this exists in Lean; `ltsSimRef` is a naive pair-deleting refinement that serves as reference.  Hence "the
-  relation computed by the engine is …" is not a theorem about a model of the code: the theorems above say that the
-  *reference* is the relation described in the statement, and the engine is covered only by the correspondence check
-  that compares its output with `ltsSimOut`.
-* **Partition and relation on blocks.**  The initial relation of the model is a list of pairs of *states*.  The
-  translation from (partition, relation on blocks) to that list is done in the driver and is not a Lean definition with
-  theorems; in particular it is not proved that the relation induced on states by a reflexive, transitive relation on
-  the blocks of a partition of `0..n-1` satisfies the hypotheses `hrefl`, `htrans` of `C16_preorder` (it obviously does),
-  and `buildResult`, which expands the engine's final (partition, relation on blocks) to pairs of states, is not
-  modelled.
-* **Output size.**  The model's output is a list of pairs; "the reported relation has size `k`" (the dimension of the
-  returned `BinaryRelation`) is not a notion of the model, only "which pairs below `k` are reported"
-  (`C16_output_restriction`).
+* **Transitivity of the block relation is needed and not asserted by the C++** (`C16_engine_needs_transitivity`: all asserted
+  preconditions hold, the relation is not transitive, the engine – model and real class alike – misses a pair of the greatest
+  simulation).  The property statement asks for a transitive relation, so this is the contract, but a caller gets no
+  diagnostic.
+* **Between engine and helper classes.**  That every call sequence the engine makes satisfies the `ok` predicates (the call
+  discipline) of `Util_LtsUtil_*` is read off the C++ (`SimulationEngine::init`, `split`, `processRemove`) and exercised by the
+  `lts` histories of the harness, not proved: the engine model works on values, the class models on heaps, and
+  `C16_engine_on_coded_classes` connects them operation by operation, not run by run.  Outside the discipline the classes have
+  real defects that the engine never triggers (`Util_LtsUtil_SmartSet_dangling_last`: `erase()` does not repair `last_`).
+* The model is tied to the C++ by reading the code and by comparison of final outputs; intermediate states of the C++
+  (block numbering, order inside the lists) are not observable through the public interface and were not compared.  That the
+  C++ assertions inside the loop never fail is not stated separately (it follows informally from the invariant).  The order
+  in which the result pairs are listed, and 64-bit wrap-around of the counters, are outside.
 * `C16_preorder`, `C16_default_is_greatest_simulation`, `C16_default_preorder` need `hwf` (all edge targets `< n`);
-  the sources of edges are unconstrained.  The engine's behaviour on systems violating `hwf` is outside the property.
+  the engine theorems need `ltsOKB` (sources and targets `< n`).  The engine's behaviour on systems violating it is outside
+  the property.  `BinaryRelation::resize` inside the capacity does not initialise new entries (`Util_BinRel_resize`); the
+  matrix of `C16_engine_output_matrix` is a FRESH relation, for which this does not matter.
 -/
 end Vata.Props
